@@ -21,116 +21,9 @@ import TidalPy.structures.world_types.basic as wbas
 import TidalPy.rheology.complex_compliance.complex_compliance as rcc
 import TidalPy.rheology.partial_melt.partialmelt as rpm
 
-PROV, KEEP = {}, []
-
-
-class TF(float):
-    def __new__(cls, v, term):
-        o = float.__new__(cls, v)
-        o.term = term
-        return o
-
-    def _bin(self, other, sym, f, rev=False):
-        if isinstance(other, np.ndarray):
-            return NotImplemented
-        try:
-            ov = float(other)
-        except (TypeError, ValueError):
-            return NotImplemented
-        a, b = (term_of(other), self.term) if rev else (self.term, term_of(other))
-        val = f(ov, float(self)) if rev else f(float(self), ov)
-        return TF(val, ['op', sym, a, b])
-
-    def __add__(self, o): return self._bin(o, '+', lambda a, b: a + b)
-    def __radd__(self, o): return self._bin(o, '+', lambda a, b: a + b, True)
-    def __sub__(self, o): return self._bin(o, '-', lambda a, b: a - b)
-    def __rsub__(self, o): return self._bin(o, '-', lambda a, b: a - b, True)
-    def __mul__(self, o): return self._bin(o, '*', lambda a, b: a * b)
-    def __rmul__(self, o): return self._bin(o, '*', lambda a, b: a * b, True)
-    def __truediv__(self, o): return self._bin(o, '/', lambda a, b: a / b)
-    def __rtruediv__(self, o): return self._bin(o, '/', lambda a, b: a / b, True)
-    def __neg__(self): return TF(-float(self), ['op', 'neg', self.term])
-    def __pos__(self): return self
-    def __abs__(self): return TF(abs(float(self)), ['app', 'abs', [self.term], []])
-
-    def __pow__(self, o):
-        try:
-            ov = float(o)
-        except (TypeError, ValueError):
-            return NotImplemented
-        return TF(float(self) ** ov, ['app', 'pow', [self.term, term_of(o)], []])
-
-
-class TD(dict):
-    term = None
-
-
-class TT(tuple):
-    term = None
-
-
-def term_of(x):
-    t = getattr(x, 'term', None)
-    if t is not None:
-        return t
-    if id(x) in PROV:
-        return PROV[id(x)]
-    if isinstance(x, (bool, np.bool_)):
-        return ['c', repr(bool(x))]
-    if isinstance(x, (int, float, np.floating, np.integer)):
-        return ['c', repr(float(x))]
-    if isinstance(x, (complex, np.complexfloating)):
-        return ['c', repr(complex(x))]
-    if isinstance(x, (str, type(None))):
-        return ['c', repr(x)]
-    if isinstance(x, np.ndarray):
-        if x.ndim == 0 and x.dtype.kind == 'f':
-            return ['c', repr(float(x))]
-        return ['c', 'ndarray:' + hashlib.sha256(np.ascontiguousarray(x).tobytes()).hexdigest()[:20]]
-    if isinstance(x, dict):
-        return ['dict', [[repr(k), term_of(v)] for k, v in x.items()]]
-    if isinstance(x, (tuple, list)):
-        return ['tup', [term_of(v) for v in x]]
-    if callable(x):
-        return ['fn', getattr(x, '__name__', type(x).__name__)]
-    return ['c', 'object:' + type(x).__name__]
-
-
-def wrap_out(v, term):
-    if isinstance(v, (float, np.floating)) or (isinstance(v, np.ndarray) and v.ndim == 0 and v.dtype.kind == 'f'):
-        return TF(float(v), term)
-    if isinstance(v, tuple):
-        t = TT(wrap_out(x, ['proj', i, term]) for i, x in enumerate(v))
-        t.term = term
-        return t
-    if isinstance(v, dict) and type(v) is dict:
-        d = TD(v)
-        d.term = term
-        return d
-    PROV[id(v)] = term
-    KEEP.append(v)
-    return v
-
-
-def plain(x):
-    if isinstance(x, TF):
-        return float(x)
-    if isinstance(x, TT) or type(x) is tuple:
-        return tuple(plain(v) for v in x)
-    if type(x) is list:
-        return [plain(v) for v in x]
-    if isinstance(x, TD):
-        return {k: plain(v) for k, v in x.items()}
-    return x
-
-
-def traced(name, f):
-    def g(*a, **k):
-        term = ['app', name, [term_of(x) for x in a], [[kk, term_of(v)] for kk, v in sorted(k.items())]]
-        return wrap_out(f(*[plain(x) for x in a], **{kk: plain(v) for kk, v in k.items()}), term)
-    g.__name__ = name
-    g.__wrapped__ = f
-    return g
+import os as _os
+sys.path.insert(0, _os.path.dirname(_os.path.abspath(__file__)))
+from prov import PROV, KEEP, TF, TD, TT, term_of, wrap_out, plain, traced
 
 
 _fmm = tbase.find_mode_manipulators
